@@ -10,7 +10,9 @@ import (
 	"errors"
 	"fmt"
 	"io"
+	"math"
 	"math/big"
+	"regexp"
 	"sort"
 	"strconv"
 	"strings"
@@ -68,18 +70,19 @@ var verifFuncs = customfuncs.CustomFuncs{
 
 var allFuncs = customfuncs.Merge(customfuncs.CommonCustomFuncs, v21.OmniV21CustomFuncs, verifFuncs)
 
-var externals = map[string]string{"ext1": " ex ", "ext2": "7"}
+var externals = map[string]string{"ext1": " ex ", "ext2": "7", "ext3": "010", "ext4": "0x1F", "ext5": "1e3"}
 
 // ---- observation of one record --------------------------------------------------------------------
 
 type recObs struct {
-	Tree    string // Coq term of the whole node tree
-	Cursor  []int  // path of the record node from the root
-	Size    int
-	On, Off string // canonical JSON of ParseNode with the transform cache on / off ("!err" on error)
-	Read    string // canonical JSON of what Transform.Read returned ("!err" = ErrTransformFailed)
-	Direct  []memberExp
-	ReadObs string // Coq term of the observed outcome
+	Tree     string // Coq term of the whole node tree
+	Cursor   []int  // path of the record node from the root
+	Size     int
+	On, Off  string // canonical JSON of ParseNode with the transform cache on / off ("!err" on error)
+	Read     string // canonical JSON of what Transform.Read returned ("!err" = ErrTransformFailed)
+	Direct   []memberExp
+	retained []byte
+	ReadObs  string // Coq term of the observed outcome
 }
 
 type capture struct {
@@ -111,7 +114,8 @@ func expectNorm(d *GDecl, s string) (string, interface{}) {
 			v = i
 		case "float":
 			f, err := strconv.ParseFloat(s, 64)
-			if err != nil {
+			if err != nil || math.IsInf(f, 0) || math.IsNaN(f) {
+				// a cast error fails the record; so does a value json.Marshal cannot emit
 				return "fail", nil
 			}
 			v = f
@@ -139,13 +143,19 @@ func directExpectations(fo *GDecl, n *idr.Node) []memberExp {
 	}
 	for _, kv := range fo.Object {
 		d := kv.D
-		if d.External != nil || d.Func != nil || d.Template != nil || d.HasObject || d.HasArray || d.XDyn != nil {
+		if d.Func != nil || d.Template != nil || d.HasObject || d.HasArray || d.XDyn != nil {
 			continue
 		}
 		var state string
 		var val interface{}
 		if d.Const != nil {
 			state, val = expectNorm(d, *d.Const)
+		} else if d.External != nil {
+			if ev, ok := externals[*d.External]; ok {
+				state, val = expectNorm(d, ev)
+			} else {
+				state = "fail"
+			}
 		} else {
 			nodes := []*idr.Node{n}
 			if d.XPath != nil && strings.TrimSpace(*d.XPath) != "" {
@@ -223,7 +233,7 @@ func canonJSON(v interface{}, err error) string {
 	}
 	b, merr := json.Marshal(v)
 	if merr != nil {
-		return "!marshal"
+		return "!err" // the ingester reports a value json cannot emit as a failure of this record
 	}
 	return canonBytes(b)
 }
@@ -389,6 +399,7 @@ type runOut struct {
 	Recs      []*recObs
 	Fatal     string // a non-continuable error other than EOF ended the run
 	Panic     string
+	Clobbered string // bytes returned by an earlier Read changed while later records were read
 }
 
 func runSchema(schema, input string, fo *GDecl) (out *runOut) {
@@ -447,11 +458,18 @@ func runSchema(schema, input string, fo *GDecl) (out *runOut) {
 			continue
 		}
 		ro.Read = canonBytes(b)
+		ro.retained = b // the slice itself, not a copy: re-validated when the run is over
 		dec := json.NewDecoder(bytes.NewReader(b))
 		dec.UseNumber()
 		var v interface{}
 		_ = dec.Decode(&v)
 		ro.ReadObs = "(OOk " + obsTerm(v) + ")"
+	}
+	for i, ro := range cp.recs {
+		if ro.retained != nil && canonBytes(ro.retained) != ro.Read {
+			out.Clobbered = fmt.Sprintf("record %d: was %s, is now %s", i, ro.Read, string(ro.retained))
+			break
+		}
 	}
 	// records the reader produced but Read never reported (run ended early)
 	var done []*recObs
@@ -649,9 +667,70 @@ func bareName(s string) bool {
 	return true
 }
 
+// selector = a one-step child xpath the independent XML reading understands:
+//
+//	NAME | * , optionally followed by [k] | [last()] | [position()<last()]
+type selector struct {
+	name string // "*" = any element child
+	pred string // "", "last", "beforelast", "k"
+	k    int
+}
+
+var selRe = regexp.MustCompile(`^(\*|[a-z]+)(\[(last\(\)|position\(\) ?< ?last\(\)|[0-9]+)\])?$`)
+
+func parseSelector(xp string) (selector, bool) {
+	m := selRe.FindStringSubmatch(xp)
+	if m == nil {
+		return selector{}, false
+	}
+	sl := selector{name: m[1]}
+	switch {
+	case m[3] == "":
+	case m[3] == "last()":
+		sl.pred = "last"
+	case strings.HasPrefix(m[3], "position()"):
+		sl.pred = "beforelast"
+	default:
+		sl.pred = "k"
+		sl.k, _ = strconv.Atoi(m[3])
+	}
+	return sl, true
+}
+
+// apply: the element children with that local name and NO prefix (any element child for *), in
+// document order, then the positional predicate among them
+func (sl selector) apply(rec *xnode) []*xnode {
+	var m []*xnode
+	for _, k := range rec.Kids {
+		if k.IsText {
+			continue
+		}
+		if sl.name == "*" || (k.Local == sl.name && k.Space == "") {
+			m = append(m, k)
+		}
+	}
+	switch sl.pred {
+	case "last":
+		if len(m) > 0 {
+			m = m[len(m)-1:]
+		}
+	case "beforelast":
+		if len(m) > 0 {
+			m = m[:len(m)-1]
+		}
+	case "k":
+		if sl.k >= 1 && sl.k <= len(m) {
+			m = m[sl.k-1 : sl.k]
+		} else {
+			m = nil
+		}
+	}
+	return m
+}
+
 // xmlDirect: for every record (child element n of the document element, in order) what the
-// members `{xpath: NAME}` and `{array: [{xpath: NAME}]}` of FINAL_OUTPUT must be: NAME selects
-// the child elements with that local name and NO prefix.
+// members `{xpath: SEL}`, `{array: [{xpath: SEL}]}` and `{xpath: SEL, object: {t: {xpath: "."}}}`
+// of FINAL_OUTPUT must be, from an independent reading of the input.
 func xmlDirect(input string, fo *GDecl) [][]memberExp {
 	if fo == nil || !fo.HasObject {
 		return nil
@@ -666,28 +745,29 @@ func xmlDirect(input string, fo *GDecl) [][]memberExp {
 			recs = append(recs, k)
 		}
 	}
+	plainField := func(e *GDecl) (selector, bool) {
+		if e.Const != nil || e.External != nil || e.Func != nil || e.Template != nil || e.HasObject || e.HasArray ||
+			e.XDyn != nil || e.XPath == nil {
+			return selector{}, false
+		}
+		return parseSelector(*e.XPath)
+	}
+	selfField := func(e *GDecl) bool {
+		return e.Const == nil && e.External == nil && e.Func == nil && e.Template == nil && !e.HasObject && !e.HasArray &&
+			e.XDyn == nil && e.XPath != nil && *e.XPath == "."
+	}
 	var out [][]memberExp
 	for _, rec := range recs {
 		var exps []memberExp
-		sel := func(name string) []*xnode {
-			var m []*xnode
-			for _, k := range rec.Kids {
-				if !k.IsText && k.Local == name && k.Space == "" {
-					m = append(m, k)
-				}
-			}
-			return m
-		}
 		for _, kv := range fo.Object {
 			d := kv.D
-			plainField := func(e *GDecl) bool {
-				return e.Const == nil && e.External == nil && e.Func == nil && e.Template == nil && !e.HasObject && !e.HasArray &&
-					e.XDyn == nil && e.XPath != nil && bareName(*e.XPath)
+			me := memberExp{Key: kv.Key}
+			put := func(val interface{}) {
+				b, _ := json.Marshal(map[string]interface{}{kv.Key: val})
+				me.Val = canonBytes(b)
 			}
-			switch {
-			case plainField(d):
-				m := sel(*d.XPath)
-				me := memberExp{Key: kv.Key}
+			if sl, ok := plainField(d); ok {
+				m := sl.apply(rec)
 				var val interface{}
 				switch {
 				case len(m) == 0:
@@ -701,34 +781,69 @@ func xmlDirect(input string, fo *GDecl) [][]memberExp {
 					me.State, val = expectNorm(d, m[0].innerText())
 				}
 				if me.State == "present" {
-					b, _ := json.Marshal(map[string]interface{}{kv.Key: val})
-					me.Val = canonBytes(b)
+					put(val)
 				}
 				exps = append(exps, me)
-			case d.HasArray && len(d.Array) == 1 && plainField(d.Array[0]) && d.XPath == nil && d.XDyn == nil:
-				e := d.Array[0]
-				me := memberExp{Key: kv.Key, State: "present"}
-				vals := []interface{}{}
-				for _, x := range sel(*e.XPath) {
-					st, v := expectNorm(e, x.innerText())
+				continue
+			}
+			if d.HasArray && len(d.Array) == 1 && d.XPath == nil && d.XDyn == nil {
+				if sl, ok := plainField(d.Array[0]); ok {
+					e := d.Array[0]
+					me.State = "present"
+					vals := []interface{}{}
+					for _, x := range sl.apply(rec) {
+						st, v := expectNorm(e, x.innerText())
+						switch st {
+						case "fail":
+							me.State = "fail"
+						case "present":
+							vals = append(vals, v)
+						}
+					}
+					if me.State == "present" {
+						switch {
+						case len(vals) > 0:
+							put(vals)
+						case d.Keep:
+							put(nil)
+						default:
+							me.State = "absent"
+						}
+					}
+					exps = append(exps, me)
+					continue
+				}
+			}
+			if d.HasObject && d.XPath != nil && d.XDyn == nil && len(d.Object) == 1 && selfField(d.Object[0].D) &&
+				d.Const == nil && d.External == nil && d.Func == nil {
+				sl, ok := parseSelector(*d.XPath)
+				if !ok {
+					continue
+				}
+				m := sl.apply(rec)
+				switch {
+				case len(m) == 0:
+					me.State = "absent"
+					if d.Keep {
+						me.State = "present"
+						put(nil)
+					}
+				case len(m) > 1:
+					me.State = "fail"
+				default:
+					st, v := expectNorm(d.Object[0].D, m[0].innerText())
 					switch st {
 					case "fail":
 						me.State = "fail"
 					case "present":
-						vals = append(vals, v)
-					}
-				}
-				if me.State == "present" {
-					if len(vals) == 0 {
+						me.State = "present"
+						put(map[string]interface{}{d.Object[0].Key: v})
+					default:
+						me.State = "absent"
 						if d.Keep {
-							b, _ := json.Marshal(map[string]interface{}{kv.Key: nil})
-							me.Val = canonBytes(b)
-						} else {
-							me.State = "absent"
+							me.State = "present"
+							put(map[string]interface{}{})
 						}
-					} else {
-						b, _ := json.Marshal(map[string]interface{}{kv.Key: vals})
-						me.Val = canonBytes(b)
 					}
 				}
 				exps = append(exps, me)
